@@ -2,14 +2,42 @@
 
 Decomposed into finite domains that are enumerated completely (tables, GF multiplication, ShiftRows positions,
 MixColumns columns, key schedule families, AESAVS-style block families, mode drivers, wrapper message lengths,
-argument-length lattice, round-key-cache use sequences). Reference: verif/ref/aes.py (written from the FIPS-197
-definitions) plus hard-coded FIPS-197 App. C / SP 800-38A vectors.
+argument-length lattice, round-key-cache use sequences, call histories with rejected calls). Reference: verif/ref/aes.py
+(written from the FIPS-197 definitions) plus hard-coded FIPS-197 App. C / SP 800-38A vectors.
+
+Public surface vs. internals.  The verdict-carrying black-box families (blocks, modes, lengths, wrapper, cache, history) use only
+the four public functions aes_{ecb,cbc}_{encrypt,decrypt} and patch_pypdf_fallback_aes()/CryptAES.  The component families
+(tables, gfmul, shiftrows, mixcolumns, keyschedule) need hooks into private names (_SBOX, _MUL*, _gf_mul, _shift_rows, ...);
+every such hook is OPTIONAL: a name that a refactoring removed is skipped and listed in coverage["hooks_absent"] (the black-box
+families still judge the cipher), it is never a harness error.  State-carrying helpers accept both conventions (mutate the
+state in place / return the new state).
+
+Histories start from a FRESH module instance (the module's source executed into a new module object; for the large `history`
+family a clone of a pristine instance when `_make_plan` proves that equivalent: plain functions re-created over new globals, plain
+data copied, locks renewed, imports shared - else the source is executed), so "state" is whatever the implementation keeps between
+calls - no private cache name is touched; the only private peek left is the optional size bound of `_ROUND_KEY_CACHE` when that
+name exists.
+
+Family `cache`  : every key-use sequence of length L (quick 5 / thorough 7) over 5 valid keys (3 x 128, 192, 256 bit: one more
+                  than the 4 schedule slots); every step (= every prefix) must equal the uncached reference result.
+Family `history`: every sequence of length L over a CALL alphabet that contains REJECTED calls, judged at every step:
+                  a call with legal arguments must return the reference result whatever was called (and rejected) before, a call
+                  with a wrong-length key / data / IV must raise ValueError whatever was called (and accepted or rejected) before.
+                  call = (function, key, argument shape);  functions: the 4 public ones;
+                  quick   : keys {k16a, k24, k32} legal + {b0 (empty), b15p (k16a minus last byte), b17x (k16a plus one byte),
+                            b48x (k32 followed by k16a)} illegal; shapes: ok | 15-byte data (with k16a) | 15-byte IV (CBC, k16a)
+                            = 34 calls, L = 3  (39304 histories, all their prefixes judged)
+                  thorough: quick alphabet with L = 4 (1336336 histories) and the wide alphabet with L = 3: legal {k16a, k16b,
+                            k24, k32}, illegal {b0, b1, b15p, b17x, b23p, b25x, b33x, b48x}, short data / short IV with each
+                            legal key = 72 calls (373248 histories).
+                  Key bytes are derived from VERIF_SEED (spelling only); cases name keys symbolically.
 """
 from __future__ import annotations
 
 import itertools
 import os
 import random
+import types
 
 from verif.mc import pool as P
 from verif.ref import aes as R
@@ -21,6 +49,159 @@ MOD = "sharepoint2text.parsing.extractors.pdf._pypdf_aes_fallback"
 def _m():
     import importlib
     return importlib.import_module(MOD)
+
+
+_CODE = None
+_PLAN = None      # None = not analysed yet, False = module not clonable (always execute the source), else (pristine dict, recipe)
+
+
+def _exec_fresh():
+    global _CODE
+    base = _m()
+    if _CODE is None:
+        with open(base.__file__, "rb") as f:
+            _CODE = compile(f.read(), base.__file__, "exec")
+    mod = types.ModuleType(base.__name__)
+    mod.__file__ = base.__file__
+    mod.__package__ = base.__package__
+    exec(_CODE, mod.__dict__)
+    return mod
+
+
+def _plain(v, depth=0):
+    """deeply plain data (no objects that could carry code or references into a module)"""
+    if v is None or isinstance(v, (bool, int, float, str, bytes)):
+        return True
+    if depth > 6:
+        return False
+    if isinstance(v, (tuple, list, set, frozenset, bytearray)):
+        return isinstance(v, bytearray) or all(_plain(x, depth + 1) for x in v)
+    if isinstance(v, dict):      # includes OrderedDict
+        return all(_plain(k, depth + 1) and _plain(x, depth + 1) for k, x in v.items())
+    return False
+
+
+def _frozen(v, depth=0):
+    """deeply immutable plain data"""
+    if v is None or isinstance(v, (bool, int, float, str, bytes)):
+        return True
+    return depth < 6 and isinstance(v, (tuple, frozenset)) and all(_frozen(x, depth + 1) for x in v)
+
+
+def _cp(v):
+    """copy of deeply plain data (what copy.deepcopy gives, without its per-element bookkeeping)"""
+    if _frozen(v):
+        return v
+    if isinstance(v, list):
+        return [_cp(x) for x in v]
+    if isinstance(v, tuple):
+        return tuple(_cp(x) for x in v)
+    if isinstance(v, (set, bytearray)):
+        return type(v)(v)
+    import copy
+    c = copy.copy(v)            # dict / OrderedDict: keys are hashable, hence immutable plain data
+    for k in c:
+        c[k] = _cp(c[k])
+    return c
+
+
+def _make_plan():
+    """Decide once per process whether a fresh instance can be produced by CLONING a pristine (never called) instance instead of
+    executing the source again (1 ms): every global must be (a) a plain function of this module without closure / attributes /
+    mutable defaults -> re-created over the new globals, (b) deeply plain data -> deep-copied when mutable, (c) a lock -> a new
+    lock, (d) an object that belongs to another module (imports) -> shared, exactly as a re-import would share it.  Anything else
+    (classes defined here, wrapped functions, containers holding functions, ...) -> not clonable, the source is executed."""
+    import threading
+    pristine = _exec_fresh()
+    d = pristine.__dict__
+    lock_t, rlock_t = type(threading.Lock()), type(threading.RLock())
+    recipe = []
+    for name, v in d.items():
+        if name == "__builtins__" or (name.startswith("__") and name.endswith("__")):
+            recipe.append((name, "share"))
+        elif isinstance(v, types.FunctionType):
+            if v.__globals__ is not d:
+                recipe.append((name, "share"))
+            elif v.__closure__ is None and not v.__dict__ and _plain(v.__defaults__) and _plain(v.__kwdefaults__) \
+                    and all(not isinstance(x, (list, dict, set, bytearray)) for x in (v.__defaults__ or ())) \
+                    and all(not isinstance(x, (list, dict, set, bytearray)) for x in (v.__kwdefaults__ or {}).values()):
+                recipe.append((name, "func"))
+            else:
+                return False
+        elif isinstance(v, lock_t):
+            recipe.append((name, "lock"))
+        elif isinstance(v, rlock_t):
+            recipe.append((name, "rlock"))
+        elif isinstance(v, types.ModuleType):
+            recipe.append((name, "share"))
+        elif _plain(v):
+            recipe.append((name, "share" if _frozen(v) else "slice" if isinstance(v, list) and all(_frozen(x) for x in v) else "copy"))
+        elif (isinstance(v, type) and v.__module__ != d.get("__name__")) or isinstance(v, types.BuiltinFunctionType) \
+                or type(v).__module__ in ("typing", "__future__", "collections.abc"):
+            recipe.append((name, "share"))      # imported class / builtin / typing alias / __future__ feature (stateless, shared by any re-import)
+        else:
+            return False
+    return d, recipe
+
+
+def fresh():
+    """A new instance of the AES module in its import-time state: the module's source executed into a new module object, or
+    (same result, 30x cheaper) a clone of a pristine instance when `_make_plan` proves the module clonable.
+    VERIF_C20_EXEC_FRESH=1 forces execution of the source."""
+    global _PLAN
+    if _PLAN is None:
+        _PLAN = False if os.environ.get("VERIF_C20_EXEC_FRESH") else _make_plan()
+    if _PLAN is False:
+        return _exec_fresh()
+    import threading
+    d, recipe = _PLAN
+    mod = types.ModuleType(d["__name__"])
+    nd = mod.__dict__
+    for name, how in recipe:
+        v = d[name]
+        if how == "share":
+            nd[name] = v
+        elif how == "slice":
+            nd[name] = v[:]
+        elif how == "copy":
+            nd[name] = _cp(v)
+        elif how == "func":
+            f = types.FunctionType(v.__code__, nd, v.__name__, v.__defaults__, None)
+            f.__kwdefaults__ = dict(v.__kwdefaults__) if v.__kwdefaults__ else None
+            f.__qualname__ = v.__qualname__
+            f.__doc__ = v.__doc__
+            f.__annotations__ = v.__annotations__
+            f.__module__ = v.__module__
+            nd[name] = f
+        elif how == "lock":
+            nd[name] = threading.Lock()
+        else:
+            nd[name] = threading.RLock()
+    return mod
+
+
+_ABSENT = set()
+
+
+def _hook(m, name):
+    """optional private hook: None (and recorded) when the implementation no longer has it"""
+    v = getattr(m, name, None)
+    if v is None:
+        _ABSENT.add(name)
+    return v
+
+
+def _apply(f, state):
+    """run a state transformation that either mutates `state` in place or returns the new state"""
+    r = f(state)
+    return list(state) if r is None else list(r)
+
+
+def _seed():
+    try:
+        return int(os.environ.get("VERIF_SEED", "0") or 0)
+    except ValueError:
+        return 0
 
 
 def h(b):
@@ -35,34 +216,50 @@ def fam_tables(tier):
     ev = 0
     fails = []
     outs = set()
-    for i in range(256):
-        for name, got, exp in (("sbox", m._SBOX[i], R.SBOX[i]), ("inv_sbox", m._INV_SBOX[i], R.INV_SBOX[i]),
-                               ("mul2", m._MUL2[i], R.gmul(i, 2)), ("mul3", m._MUL3[i], R.gmul(i, 3)), ("mul9", m._MUL9[i], R.gmul(i, 9)),
-                               ("mul11", m._MUL11[i], R.gmul(i, 11)), ("mul13", m._MUL13[i], R.gmul(i, 13)), ("mul14", m._MUL14[i], R.gmul(i, 14)),
-                               ("xtime", m._xtime(i), R.gmul(i, 2))):
-            ev += 1
-            outs.add((name, got))
-            if got != exp:
-                fails.append(("table", ["table", name, i], f"{name}[{i:#x}] = {got:#x}, FIPS-197 gives {exp:#x}"))
-    for name, tab in (("sbox", m._SBOX), ("inv_sbox", m._INV_SBOX), ("mul2", m._MUL2), ("mul3", m._MUL3), ("mul9", m._MUL9),
-                      ("mul11", m._MUL11), ("mul13", m._MUL13), ("mul14", m._MUL14)):
+    tabs = (("sbox", "_SBOX", lambda i: R.SBOX[i]), ("inv_sbox", "_INV_SBOX", lambda i: R.INV_SBOX[i]),
+            ("mul2", "_MUL2", lambda i: R.gmul(i, 2)), ("mul3", "_MUL3", lambda i: R.gmul(i, 3)), ("mul9", "_MUL9", lambda i: R.gmul(i, 9)),
+            ("mul11", "_MUL11", lambda i: R.gmul(i, 11)), ("mul13", "_MUL13", lambda i: R.gmul(i, 13)), ("mul14", "_MUL14", lambda i: R.gmul(i, 14)))
+    for name, attr, expf in tabs:
+        tab = _hook(m, attr)
+        if tab is None:
+            continue
         ev += 1
         if len(tab) != 256:
             fails.append(("table", ["table", name, "len"], f"{name} has {len(tab)} entries"))
-    rc = 1
-    for i in range(1, 15):
-        ev += 1
-        if m._RCON[i] != rc:
-            fails.append(("table", ["table", "rcon", i], f"RCON[{i}] = {m._RCON[i]:#x}, expected {rc:#x}"))
-        rc = R.gmul(rc, 2)
-    for w in ([0, 1, 2, 3], [255, 0, 128, 7], [0x53, 0xCA, 0x10, 0xFE]):
-        ev += 2
-        if list(m._rot_word(list(w))) != w[1:] + w[:1]:
-            fails.append(("table", ["table", "rot_word", w], f"_rot_word({w})"))
-    for b in range(256):
-        ev += 1
-        if list(m._sub_word([b, b ^ 0xFF, (b * 7) & 0xFF, (b + 1) & 0xFF])) != [R.SBOX[b], R.SBOX[b ^ 0xFF], R.SBOX[(b * 7) & 0xFF], R.SBOX[(b + 1) & 0xFF]]:
-            fails.append(("table", ["table", "sub_word", b], f"_sub_word wrong for byte {b}"))
+        for i in range(min(256, len(tab))):
+            ev += 1
+            got, exp = tab[i], expf(i)
+            outs.add((name, got))
+            if got != exp:
+                fails.append(("table", ["table", name, i], f"{name}[{i:#x}] = {got:#x}, FIPS-197 gives {exp:#x}"))
+    xt = _hook(m, "_xtime")
+    if xt is not None:
+        for i in range(256):
+            ev += 1
+            got, exp = xt(i), R.gmul(i, 2)
+            outs.add(("xtime", got))
+            if got != exp:
+                fails.append(("table", ["table", "xtime", i], f"xtime[{i:#x}] = {got:#x}, FIPS-197 gives {exp:#x}"))
+    rcon = _hook(m, "_RCON")
+    if rcon is not None:
+        rc = 1
+        for i in range(1, 15):
+            ev += 1
+            if i >= len(rcon) or rcon[i] != rc:
+                fails.append(("table", ["table", "rcon", i], f"RCON[{i}] = {rcon[i] if i < len(rcon) else None!r}, expected {rc:#x}"))
+            rc = R.gmul(rc, 2)
+    rot = _hook(m, "_rot_word")
+    if rot is not None:
+        for w in ([0, 1, 2, 3], [255, 0, 128, 7], [0x53, 0xCA, 0x10, 0xFE]):
+            ev += 2
+            if list(rot(list(w))) != w[1:] + w[:1]:
+                fails.append(("table", ["table", "rot_word", w], f"_rot_word({w})"))
+    sub = _hook(m, "_sub_word")
+    if sub is not None:
+        for b in range(256):
+            ev += 1
+            if list(sub([b, b ^ 0xFF, (b * 7) & 0xFF, (b + 1) & 0xFF])) != [R.SBOX[b], R.SBOX[b ^ 0xFF], R.SBOX[(b * 7) & 0xFF], R.SBOX[(b + 1) & 0xFF]]:
+                fails.append(("table", ["table", "sub_word", b], f"_sub_word wrong for byte {b}"))
     return ev, fails, outs
 
 
@@ -71,13 +268,16 @@ def fam_gfmul(tier):
     ev = 0
     fails = []
     outs = set()
+    gf = _hook(m, "_gf_mul")
+    if gf is None:
+        return ev, fails, outs
     for a in range(256):
         for b in range(256):
             ev += 1
-            g = m._gf_mul(a, b)
+            g = gf(a, b)
             if g != R.gmul(a, b):
                 fails.append(("gfmul", ["gfmul", a, b], f"_gf_mul({a},{b}) = {g}, expected {R.gmul(a, b)}"))
-        outs.add(m._gf_mul(a, 0x53))
+        outs.add(gf(a, 0x53))
     return ev, fails, outs
 
 
@@ -86,62 +286,70 @@ def fam_shiftrows(tier):
     ev = 0
     fails = []
     outs = set()
+    sr = _hook(m, "_shift_rows")
+    isr = _hook(m, "_inv_shift_rows")
     for p in range(16):
         for v in range(1, 256):
             s = [0] * 16
             s[p] = v
-            exp = R._shift_rows(s)
-            got = list(s)
-            m._shift_rows(got)
-            ev += 1
-            outs.add(tuple(i for i, x in enumerate(got) if x))
-            if got != exp:
-                fails.append(("shiftrows", ["shift_rows", p, v], f"ShiftRows moves byte at {p} to {[i for i, x in enumerate(got) if x]}, expected {[i for i, x in enumerate(exp) if x]}"))
-            exp = R._inv_shift_rows(s)
-            got = list(s)
-            m._inv_shift_rows(got)
-            ev += 1
-            if got != exp:
-                fails.append(("shiftrows", ["inv_shift_rows", p, v], f"InvShiftRows moves byte at {p} wrongly"))
-            got = list(s)
-            m._shift_rows(got)
-            m._inv_shift_rows(got)
-            ev += 1
-            if got != s:
-                fails.append(("shiftrows", ["shift_inverse", p, v], "InvShiftRows(ShiftRows(s)) != s"))
-    full = list(range(16))
-    got = list(full)
-    m._shift_rows(got)
-    ev += 1
-    if got != R._shift_rows(full):
-        fails.append(("shiftrows", ["shift_rows", "full", 0], "ShiftRows on 0..15"))
+            if sr is not None:
+                exp = R._shift_rows(s)
+                got = _apply(sr, list(s))
+                ev += 1
+                outs.add(tuple(i for i, x in enumerate(got) if x))
+                if got != exp:
+                    fails.append(("shiftrows", ["shift_rows", p, v], f"ShiftRows moves byte at {p} to {[i for i, x in enumerate(got) if x]}, expected {[i for i, x in enumerate(exp) if x]}"))
+            if isr is not None:
+                exp = R._inv_shift_rows(s)
+                got = _apply(isr, list(s))
+                ev += 1
+                if got != exp:
+                    fails.append(("shiftrows", ["inv_shift_rows", p, v], f"InvShiftRows moves byte at {p} wrongly"))
+            if sr is not None and isr is not None:
+                got = _apply(isr, _apply(sr, list(s)))
+                ev += 1
+                if got != s:
+                    fails.append(("shiftrows", ["shift_inverse", p, v], "InvShiftRows(ShiftRows(s)) != s"))
+    if sr is not None:
+        full = list(range(16))
+        got = _apply(sr, list(full))
+        ev += 1
+        if got != R._shift_rows(full):
+            fails.append(("shiftrows", ["shift_rows", "full", 0], "ShiftRows on 0..15"))
     return ev, fails, outs
 
 
-def _mix_check(m, cols, fails, outs, inverse_too=True):
-    """cols: list of 4 columns (each 4 ints) -> one state"""
+def _mix_check(m, cols, fails, outs):
+    """cols: list of 4 columns (each 4 ints) -> one state; returns the number of component evaluations made"""
+    mc = _hook(m, "_mix_columns")
+    imc = _hook(m, "_inv_mix_columns")
     s = sum(cols, [])
-    got = list(s)
-    m._mix_columns(got)
-    exp = sum((R.mix_column(c) for c in cols), [])
-    if got != exp:
-        for k in range(4):
-            if got[4 * k:4 * k + 4] != exp[4 * k:4 * k + 4]:
-                fails.append(("mixcolumns", ["mix_columns", k] + cols[k], f"MixColumns(col {cols[k]}) in position {k} = {got[4 * k:4 * k + 4]}, expected {exp[4 * k:4 * k + 4]}"))
-                break
-    outs.add(hash(tuple(got)) & 0xFFFF)
-    got2 = list(s)
-    m._inv_mix_columns(got2)
-    exp2 = sum((R.inv_mix_column(c) for c in cols), [])
-    if got2 != exp2:
-        for k in range(4):
-            if got2[4 * k:4 * k + 4] != exp2[4 * k:4 * k + 4]:
-                fails.append(("mixcolumns", ["inv_mix_columns", k] + cols[k], f"InvMixColumns(col {cols[k]}) = {got2[4 * k:4 * k + 4]}, expected {exp2[4 * k:4 * k + 4]}"))
-                break
-    back = list(got)
-    m._inv_mix_columns(back)
-    if back != s:
-        fails.append(("mixcolumns", ["mix_inverse", 0] + cols[0], "InvMixColumns(MixColumns(s)) != s"))
+    n = 0
+    got = None
+    if mc is not None:
+        n += 4
+        got = _apply(mc, list(s))
+        exp = sum((R.mix_column(c) for c in cols), [])
+        if got != exp:
+            for k in range(4):
+                if got[4 * k:4 * k + 4] != exp[4 * k:4 * k + 4]:
+                    fails.append(("mixcolumns", ["mix_columns", k] + cols[k], f"MixColumns(col {cols[k]}) in position {k} = {got[4 * k:4 * k + 4]}, expected {exp[4 * k:4 * k + 4]}"))
+                    break
+        outs.add(hash(tuple(got)) & 0xFFFF)
+    if imc is not None:
+        n += 4
+        got2 = _apply(imc, list(s))
+        exp2 = sum((R.inv_mix_column(c) for c in cols), [])
+        if got2 != exp2:
+            for k in range(4):
+                if got2[4 * k:4 * k + 4] != exp2[4 * k:4 * k + 4]:
+                    fails.append(("mixcolumns", ["inv_mix_columns", k] + cols[k], f"InvMixColumns(col {cols[k]}) = {got2[4 * k:4 * k + 4]}, expected {exp2[4 * k:4 * k + 4]}"))
+                    break
+    if got is not None and imc is not None:
+        back = _apply(imc, list(got))
+        if back != s:
+            fails.append(("mixcolumns", ["mix_inverse", 0] + cols[0], "InvMixColumns(MixColumns(s)) != s"))
+    return n // 2 if (mc is not None and imc is not None) else n
 
 
 def fam_mix_small(arg):
@@ -172,8 +380,7 @@ def fam_mix_small(arg):
             chunk.append([0, 0, 0, 0])
         rot = (i // 4) % 4
         chunk = chunk[rot:] + chunk[:rot]
-        _mix_check(m, chunk, fails, outs)
-        ev += 4
+        ev += _mix_check(m, chunk, fails, outs)
     return ev, fails, outs
 
 
@@ -186,7 +393,9 @@ def fam_mix_full(arg):
     outs = set()
     g2 = [R.gmul(x, 2) for x in range(256)]
     g3 = [R.gmul(x, 3) for x in range(256)]
-    mix = m._mix_columns
+    mix = _hook(m, "_mix_columns")
+    if mix is None:
+        return ev, fails, outs
     for a0 in range(lo, hi):
         for a1 in range(256):
             e0 = g2[a0] ^ g3[a1]
@@ -200,7 +409,9 @@ def fam_mix_full(arg):
                 f3 = e3 ^ a2
                 for a3 in range(0, 256, 4):
                     s = [a0, a1, a2, a3, a0, a1, a2, a3 + 1, a0, a1, a2, a3 + 2, a0, a1, a2, a3 + 3]
-                    mix(s)
+                    r = mix(s)
+                    if r is not None:
+                        s = r
                     for k in range(4):
                         b = a3 + k
                         if s[4 * k] != f0 ^ b or s[4 * k + 1] != f1 ^ b or s[4 * k + 2] != f2 ^ g3[b] or s[4 * k + 3] != f3 ^ g2[b]:
@@ -231,12 +442,15 @@ def fam_keyschedule(tier):
     ev = 0
     fails = []
     outs = set()
+    ek = _hook(m, "_expand_key")
+    if ek is None:      # the same key families are judged black-box by fam_blocks ("varkey")
+        return ev, fails, outs
     for n in KEYSIZES:
         for k in key_family(n):
             ev += 1
-            got = m._expand_key(k)
+            got = ek(k)
             exp = R.expand_key(k)
-            outs.add(got[-1])
+            outs.add(bytes(got[-1]))
             if [bytes(x) for x in got] != exp:
                 fails.append(("keyschedule", ["expand_key", n * 8, h(k)], f"AES-{n * 8} key schedule of {h(k)} differs from FIPS-197 (first bad round key {[i for i, (a, b) in enumerate(zip(got, exp)) if bytes(a) != b][:1]})"))
     return ev, fails, outs
@@ -433,57 +647,209 @@ def fam_wrapper(tier):
                 continue
             if back != msg:
                 fails.append(("wrapper", ["decrypt_ref", n * 8, ln % 16], f"decrypt of reference ciphertext (len {ln}, pad {padn}) returns {len(back)} bytes"))
+    # wrong key lengths are rejected through the wrapper too (every key length 0..40, both directions, each call made twice in a row)
+    msg = _msg(21, 4)
+    for klen in range(0, 41):
+        key = _msg(klen, 6)
+        legal = klen in KEYSIZES
+        iv = _msg(16, klen)
+        blob = iv + (R.cbc_encrypt(key, iv, msg + bytes([11]) * 11) if legal else _msg(32, klen))
+        for fn, arg in (("encrypt", msg), ("decrypt", blob)):
+            for rep in (1, 2):
+                ev += 1
+                try:
+                    r = getattr(fb.CryptAES(key), fn)(arg)
+                    ok = True
+                except ValueError:
+                    ok = False
+                except Exception as e:  # noqa
+                    fails.append(("wrapper", ["wrap_keylen", fn, klen], f"CryptAES({klen}-byte key).{fn} raised {type(e).__name__}, not ValueError"))
+                    continue
+                outs.add((fn, ok))
+                if ok != legal:
+                    fails.append(("wrapper", ["wrap_keylen", fn, klen], f"CryptAES({klen}-byte key).{fn} (call {rep}): accepted={ok}"))
+                elif ok and fn == "decrypt" and r != msg:
+                    fails.append(("wrapper", ["wrap_keylen", fn, klen], f"CryptAES({klen}-byte key).decrypt of a reference ciphertext returns {len(r)} bytes"))
     return ev, fails, outs
 
 
+# ------------------------------------------------------------------ histories (state between calls), black-box, from a fresh module
+
+
+def _cache_keys():
+    s = _seed()
+    return [bytes([(i + 1 + s) & 0xFF]) * 16 for i in range(3)] + [bytes([(9 + s) & 0xFF]) * 24, bytes([(7 + s) & 0xFF]) * 32]
+
+
+def _run_cache_seq(seq, keys, pt, exp):
+    """one key-use sequence from a fresh module (always the executed source, never the clone); returns [(clause, case, msg)]"""
+    fm = _exec_fresh()
+    out = []
+    for j, ki in enumerate(seq):
+        try:
+            got = fm.aes_ecb_encrypt(keys[ki], pt)
+        except Exception as e:  # noqa
+            out.append(("cache", ["cache", list(seq[:j + 1])], f"key-use sequence {tuple(seq[:j + 1])} raised {type(e).__name__}: {e}"))
+            break
+        if got != exp[ki]:
+            out.append(("cache", ["cache", list(seq[:j + 1])], f"after key-use sequence {tuple(seq[:j + 1])} the ciphertext is wrong"))
+            break
+    cache = getattr(fm, "_ROUND_KEY_CACHE", None)     # optional peek: bounded memo
+    n = None
+    if cache is not None and hasattr(cache, "__len__"):
+        n = len(cache)
+        cap = getattr(fm, "_ROUND_KEY_CACHE_MAX", 4)
+        if isinstance(cap, int) and n > max(cap, 4):
+            out.append(("cache", ["cache_size", list(seq)], f"cache holds {n} > {max(cap, 4)} keys"))
+    return out, n
+
+
 def fam_cache(arg):
-    """all key-use sequences of length <= L over 5 keys: results equal the uncached computation"""
-    m = _m()
-    L, first = arg
-    keys = [bytes([i + 1]) * 16 for i in range(3)] + [bytes([9]) * 24, bytes([7]) * 32]
+    """all key-use sequences of length L over 5 keys starting with `prefix` (every prefix judged): results equal the uncached computation"""
+    L, prefix = arg
+    keys = _cache_keys()
     pt = _msg(16, 2)
     exp = [R.encrypt_block(pt, k) for k in keys]
     ev = 0
     fails = []
+    seen = set()
     outs = set()
-    for n in range(1, L + 1):
-        for seq in itertools.product(range(5), repeat=n):
-            if seq[0] != first:
-                continue
-            m._ROUND_KEY_CACHE.clear()
-            ev += 1
-            for j, ki in enumerate(seq):
-                try:
-                    got = m.aes_ecb_encrypt(keys[ki], pt)
-                except Exception as e:  # noqa
-                    fails.append(("cache", ["cache", list(seq[:j + 1])], f"key-use sequence {seq[:j + 1]} raised {type(e).__name__}: {e}"))
-                    break
-                if got != exp[ki]:
-                    fails.append(("cache", ["cache", list(seq[:j + 1])], f"after key-use sequence {seq[:j + 1]} the ciphertext is wrong"))
-                    break
-            if len(m._ROUND_KEY_CACHE) > 4:
-                fails.append(("cache", ["cache_size", list(seq)], f"cache holds {len(m._ROUND_KEY_CACHE)} > 4 keys"))
-            outs.add(tuple(m._ROUND_KEY_CACHE.keys()))
-    m._ROUND_KEY_CACHE.clear()
-    return ev, fails, {hash(o) for o in outs}
+    for rest in itertools.product(range(5), repeat=L - len(prefix)):
+        seq = tuple(prefix) + rest
+        ev += 1
+        res, n = _run_cache_seq(seq, keys, pt, exp)
+        outs.add((n, len(set(seq))))
+        for c, cs, msg in res:
+            k = repr(cs)
+            if k not in seen:
+                seen.add(k)
+                fails.append((c, cs, msg))
+    return ev, fails, outs
+
+
+FNS = ("aes_ecb_encrypt", "aes_ecb_decrypt", "aes_cbc_encrypt", "aes_cbc_decrypt")
+LEGAL_Q = ("k16a", "k24", "k32")
+ILLEGAL_Q = ("b0", "b15p", "b17x", "b48x")
+LEGAL_T = ("k16a", "k16b", "k24", "k32")
+ILLEGAL_T = ("b0", "b1", "b15p", "b17x", "b23p", "b25x", "b33x", "b48x")
+
+
+def _hist_keys():
+    s = _seed()
+    k = {"k16a": _msg(16, 21 + s), "k16b": _msg(16, 22 + s), "k24": _msg(24, 23 + s), "k32": _msg(32, 24 + s)}
+    k.update({"b0": b"", "b1": _msg(1, 25 + s), "b15p": k["k16a"][:15], "b17x": k["k16a"] + _msg(1, 26 + s), "b23p": k["k24"][:23],
+              "b25x": k["k24"] + _msg(1, 27 + s), "b33x": k["k32"] + _msg(1, 28 + s), "b48x": k["k32"] + k["k16a"]})
+    return k
+
+
+def hist_alphabet(name):
+    """call tokens [fn, key name, shape]; shape: ok | data15 (15-byte data) | iv15 (15-byte IV, CBC only)"""
+    legal, illegal, short_with = (LEGAL_Q, ILLEGAL_Q, ("k16a",)) if name == "quick" else (LEGAL_T, ILLEGAL_T, LEGAL_T)
+    toks = [[fn, k, "ok"] for fn in FNS for k in legal + illegal]
+    toks += [[fn, k, "data15"] for fn in FNS for k in short_with]
+    toks += [[fn, k, "iv15"] for fn in FNS[2:] for k in short_with]
+    return toks
+
+
+def _hist_expect(tok, keys):
+    """-> (args, expected) ; expected = None for 'must raise ValueError', else the reference result"""
+    fn, kn, shape = tok
+    key = keys[kn]
+    s = _seed()
+    data = _msg(15 if shape == "data15" else 16, 31 + s)
+    iv = _msg(15 if shape == "iv15" else 16, 32 + s)
+    args = (key, iv, data) if "cbc" in fn else (key, data)
+    if len(key) not in KEYSIZES or shape != "ok":
+        return args, None
+    ref = {"aes_ecb_encrypt": R.ecb_encrypt, "aes_ecb_decrypt": R.ecb_decrypt, "aes_cbc_encrypt": R.cbc_encrypt, "aes_cbc_decrypt": R.cbc_decrypt}[fn]
+    return args, ref(*args)
+
+
+def _run_history(seq, table):
+    """seq: list of tokens; table: {token tuple: (args, expected)}. From a fresh module; stops at the first failing step.
+    returns (clause, case, msg) or None"""
+    fm = fresh()
+
+    def bad(j, text):
+        pre = [list(t) for t in seq[:j + 1]]
+        return ("history", ["history", pre], f"step {j + 1} of {[' '.join(t) for t in pre]}: {text}")
+    for j, tok in enumerate(seq):
+        args, exp = table[tuple(tok)]
+        try:
+            got = getattr(fm, tok[0])(*args)
+        except ValueError as e:
+            if exp is not None:
+                return bad(j, f"legal call raised ValueError: {e}")
+            continue
+        except Exception as e:  # noqa
+            return bad(j, f"raised {type(e).__name__} ({e}), " + ("not ValueError" if exp is None else "arguments are legal"))
+        if exp is None:
+            return bad(j, f"call with a wrong-length {'key' if tok[2] == 'ok' else tok[2]} was accepted (returned {h(got)[:32]})")
+        if got != exp:
+            return bad(j, f"returned {h(got)[:32]}, FIPS-197 gives {h(exp)[:32]}")
+    return None
+
+
+def fam_history(arg):
+    """all call histories of length L over alphabet `name` that start with `prefix` (token indices)"""
+    name, L, prefix = arg
+    toks = hist_alphabet(name)
+    keys = _hist_keys()
+    table = {tuple(t): _hist_expect(t, keys) for t in toks}
+    ev = 0
+    fails = []
+    bad_prefixes = set()
+    outs = set()
+    for rest in itertools.product(range(len(toks)), repeat=L - len(prefix)):
+        idx = tuple(prefix) + rest
+        if any(idx[:n] in bad_prefixes for n in range(1, L + 1)):
+            continue
+        ev += 1
+        seq = [toks[i] for i in idx]
+        r = _run_history(seq, table)
+        outs.add(tuple(table[tuple(t)][1] is None for t in seq))
+        if r is not None:
+            bad_prefixes.add(idx[:len(r[1][1])])
+            fails.append(r)
+    return ev, fails, outs
 
 
 FAMS = {"tables": fam_tables, "gfmul": fam_gfmul, "shiftrows": fam_shiftrows, "mix_small": fam_mix_small, "mix_full": fam_mix_full,
         "keyschedule": fam_keyschedule, "blocks": fam_blocks, "modes": fam_modes, "lengths": fam_lengths, "wrapper": fam_wrapper,
-        "cache": fam_cache}
+        "cache": fam_cache, "history": fam_history}
 
 
 def _task(arg):
     name, a = arg
+    _ABSENT.clear()
     ev, fails, outs = FAMS[name](a)
-    return {"name": name, "ev": ev, "fails": fails[:500], "nfails": len(fails), "outs": len(outs)}
+    return {"name": name, "ev": ev, "fails": fails[:500], "nfails": len(fails), "outs": len(outs), "absent": sorted(_ABSENT)}
 
 
 def reexec(fmt, case):
-    """Re-run the family the case belongs to and report whether this case still fails."""
+    """Re-run the case (histories: exactly that sequence from a fresh module; others: the family the case belongs to)."""
+    if case[0] == "history":
+        seq = [list(t) for t in case[1]]
+        if not seq:
+            return []
+        keys = _hist_keys()
+        known = {tuple(t) for t in hist_alphabet("quick") + hist_alphabet("thorough")}
+        if any(tuple(t) not in known for t in seq):
+            return []
+        table = {tuple(t): _hist_expect(t, keys) for t in seq}
+        r = _run_history(seq, table)
+        return [(r[0], r[2])] if r is not None and r[1][1] == seq else []
+    if case[0] in ("cache", "cache_size"):
+        seq = list(case[1])
+        if not seq:
+            return []
+        keys = _cache_keys()
+        pt = _msg(16, 2)
+        res, _ = _run_cache_seq(seq, keys, pt, [R.encrypt_block(pt, k) for k in keys])
+        return [(c, msg) for c, cs, msg in res if cs == case]
     fam = {"table": "tables", "gfmul": "gfmul", "shift_rows": "shiftrows", "inv_shift_rows": "shiftrows", "shift_inverse": "shiftrows",
            "expand_key": "keyschedule", "encrypt": "blocks", "decrypt": "blocks", "fips197": "blocks", "sp800-38a": "blocks",
-           "keylen": "lengths", "datalen": "lengths", "ivlen": "lengths", "cache": "cache", "cache_size": "cache",
+           "keylen": "lengths", "datalen": "lengths", "ivlen": "lengths",
            "mix_columns": None, "inv_mix_columns": None, "mix_inverse": None}.get(case[0], "__")
     if fam is None:
         m = _m()
@@ -498,22 +864,52 @@ def reexec(fmt, case):
     if fam == "__":
         fam = {"ecb_encrypt": "modes", "ecb_roundtrip": "modes", "cbc_encrypt": "modes", "cbc_roundtrip": "modes", "cbc_decrypt": "modes",
                "cbc_bytearray": "modes"}.get(case[0], "wrapper")
-    if fam == "cache":
-        out = []
-        for first in range(5):
-            ev, fails, _ = fam_cache((len(case[1]), first))
-            out += [(c, msg) for c, cs, msg in fails if cs == case]
-        return out
     ev, fails, _ = FAMS[fam]("quick")
     return [(c, msg) for c, cs, msg in fails if cs == case]
 
 
 def shrinks(case):
-    return []
+    """histories / key-use sequences: drop one step (later steps first, so that the failing last step is kept as long as possible)"""
+    if case[0] in ("history", "cache", "cache_size") and isinstance(case[1], list):
+        seq = case[1]
+        for i in range(len(seq) - 2, -1, -1):
+            yield [case[0], seq[:i] + seq[i + 1:]]
+    return
+
+
+def _hist_view(steps):
+    """what identifies a history finding: per step the argument shape and WHICH key (legal / wrong-length, numbered by first use);
+    function names and the concrete wrong length stay in the case but not in the fingerprint"""
+    names = {}
+    out = []
+    for fn, kn, shape in steps:
+        if kn not in names:
+            cls = "legal" if kn.startswith("k") else "wrong"
+            names[kn] = f"{cls}#{sum(1 for v in names.values() if v.startswith(cls)) + 1}"
+        out.append([names[kn], shape])
+    return out
+
+
+def fingerprint_view(case):
+    if case and case[0] == "history":
+        return ["history", _hist_view(case[1])]
+    return case
 
 
 def embeds(small, big):
-    return small[0] == big[0] and (small[0] != "table" or small[1] == big[1])
+    if small[0] != big[0]:
+        return False
+    if small[0] == "history":
+        # same kind of failing last call, and the earlier calls of `small` occur (as the same pattern) in order in `big`
+        a, b = small[1], big[1]
+        if not a or not b or len(a) > len(b):
+            return False
+        va = _hist_view(a)
+        for pick in itertools.combinations(range(len(b) - 1), len(a) - 1):
+            if _hist_view([b[i] for i in pick] + [b[-1]]) == va:
+                return True
+        return False
+    return small[0] != "table" or small[1] == big[1]
 
 
 def run(ctx):
@@ -522,7 +918,20 @@ def run(ctx):
     nparts = 16
     tasks += [("mix_small", (k, nparts)) for k in range(nparts)]
     L = 5 if ctx.quick else 7
-    tasks += [("cache", (L, first)) for first in range(5)]
+    if ctx.quick:
+        tasks += [("cache", (L, (first,))) for first in range(5)]
+    else:
+        tasks += [("cache", (L, pre)) for pre in itertools.product(range(5), repeat=3)]
+    nq = len(hist_alphabet("quick"))
+    nt = len(hist_alphabet("thorough"))
+    HL = 3 if ctx.quick else 4
+    if ctx.quick:
+        tasks += [("history", ("quick", 3, (a,))) for a in range(nq)]
+        hist_bounds = {"alphabet": f"quick ({nq} calls)", "length": 3, "histories": nq ** 3}
+    else:
+        tasks += [("history", ("quick", 4, (a, b))) for a in range(nq) for b in range(nq)]
+        tasks += [("history", ("thorough", 3, (a,))) for a in range(nt)]
+        hist_bounds = {"alphabet": f"quick ({nq} calls) at length 4 + wide ({nt} calls) at length 3", "length": HL, "histories": nq ** 4 + nt ** 3}
     if not ctx.quick:
         tasks += [("mix_full", (a, a + 2)) for a in range(0, 256, 2)]
     random.Random(ctx.seed).shuffle(tasks)
@@ -532,6 +941,7 @@ def run(ctx):
     per = {}
     outs = 0
     herr = []
+    absent = set()
     for (st, r, _), t in zip(res, tasks):
         if st != "done":
             herr.append(f"task {t} failed: {st}: {str(r)[-500:]}")
@@ -539,18 +949,27 @@ def run(ctx):
         ev += r["ev"]
         per[r["name"]] = per.get(r["name"], 0) + r["ev"]
         outs += r["outs"]
+        absent.update(r.get("absent", []))
         fails += [(c, "aes", cs, msg) for c, cs, msg in r["fails"]]
     cov = {"evaluations": ev, "distinct_nontrivial": outs,
            "rule": "complete enumeration of each finite component domain: 8 tables x 256 (+RCON, RotWord, SubWord), 65536 GF products, "
                    "16 positions x 255 values for (Inv)ShiftRows, all 1- and 2-byte MixColumns columns (quick) / all 2^32 columns (thorough), "
                    "key schedules of all single-bit and byte-repeated keys for 128/192/256, VarTxt/GFSbox/VarKey block families vs the "
                    "reference, FIPS-197 App. C + SP 800-38A ECB/CBC, drivers for 0..4 blocks, wrapper for every message length 0..64 x 3 "
-                   "key sizes, key lengths 0..40 / data lengths 0..64 / IV lengths 0..32, all round-key-cache use sequences up to length L "
-                   "over 5 keys; distinct_nontrivial = distinct observed outputs summed over families",
-           "per_family": per, "exhaustive": True, "bounds": {"mixcolumns": "2-byte columns" if ctx.quick else "2^32", "cache_sequence_length": L},
+                   "key sizes and every key length 0..40, key lengths 0..40 / data lengths 0..64 / IV lengths 0..32, all key-use sequences of "
+                   "length L over 5 legal keys from a fresh module (every prefix judged), all call histories of length H over a call alphabet "
+                   "with legal and rejected calls (4 functions x legal / wrong-length keys, short data, short IV) from a fresh module, every "
+                   "step judged (legal -> reference result, illegal -> ValueError); distinct_nontrivial = distinct observed outputs summed "
+                   "over families",
+           "per_family": per, "exhaustive": True,
+           "bounds": {"mixcolumns": "2-byte columns" if ctx.quick else "2^32", "cache_sequence_length": L, "history": hist_bounds},
+           "hooks_absent": sorted(absent),
            "samples": [{"family": "blocks", "case": "AES-192 key=00..17 pt=00112233.. -> dda97ca4864cdfe06eaf70a0ec0d7191 (FIPS-197 C.2)"},
                        {"family": "wrapper", "case": "CryptAES(key).encrypt(37-byte msg) -> 16-byte IV + 48 bytes; reference CBC decrypt ends in 0b x 11"},
-                       {"family": "cache", "case": "key-use sequence (0,1,2,3,4,0): eviction of key 0 then re-expansion"}]}
+                       {"family": "cache", "case": "key-use sequence (0,1,2,3,4,0): eviction of key 0 then re-expansion"},
+                       {"family": "history", "case": "aes_ecb_encrypt k16a ok ; aes_cbc_decrypt b17x ok (ValueError) ; aes_ecb_decrypt b17x ok (ValueError again)"}]}
     return {"coverage": cov, "failures": fails, "harness_errors": herr,
             "assumptions": ["reference AES (verif/ref/aes.py) is itself validated against the hard-coded FIPS-197/SP 800-38A vectors in the same run",
-                            "round functions have no data-dependent control flow, so table/linear-layer exhaustiveness + wiring vectors determine the cipher"]}
+                            "round functions have no data-dependent control flow, so table/linear-layer exhaustiveness + wiring vectors determine the cipher",
+                            "a fresh execution of the module source is the implementation's initial state (histories are replayed from it)",
+                            "private component hooks are optional: names listed in hooks_absent were not judged component-wise in this run"]}
